@@ -310,6 +310,15 @@ class Executor:
         a + (i div d) mod m  (checked against the actual table contents), return that closed form"""
         if hi - lo < 4 or len(rest) > 1:
             return None
+        if not rest and isinstance(v[lo], list) and all(isinstance(x, int) and not isinstance(x, bool) for x in v[lo]):
+            # the element is a small array of integers (digitPairs[rem]): closed form per component
+            out = []
+            for j in range(len(v[lo])):
+                cf = self._table_closed_form(v, i, lo, hi, (j,))
+                if cf is None:
+                    return None
+                out.append(cf)
+            return out
         try:
             vals = []
             for k in range(lo, hi + 1):
